@@ -62,16 +62,33 @@ def gen_name(rng, cls, close_q, open_q, reserved_words, for_schema=False):
     if cls == "dollar":
         return ("$" + w) if rng.random() < 0.6 else insert(rng, w, "$")
     if cls == "edge":
+        if rng.random() < 0.3:   # a name that literally contains a dot
+            return gen_name(rng, "dotname", close_q, open_q, reserved_words, for_schema)
         for _ in range(20):
             e = rng.choice(EDGE)
             if not (for_schema and (e.startswith(".") or e.endswith(".") or ".." in e)):
                 return e
         return "a"
+    if cls == "dotname":   # a name that literally contains a dot (e.g. schema `corp.sales`)
+        return w + "." + (word(rng) if rng.random() < 0.7 else gen_name(rng, rng.choice(["mixed", "space", "reserved"]), close_q, open_q, reserved_words, True))
     if cls == "percent":
         return insert(rng, w, rng.choice(["%", "%", "%%", " %"]))
     if cls == "tab":
         return insert(rng, w, "\t")
     raise ValueError(cls)
+
+
+def arg_kind(rng, name, cls):
+    """The KIND of a table / column / schema argument: plain str, or sqlalchemy quoted_name with quote=None (what
+    Table.name / Table.schema / Column.name hold), quote=True, quote=False (only for names that need no quoting)."""
+    r = rng.random()
+    if r < 0.5:
+        return name
+    if r < 0.8:
+        return {"s": name, "q": None}
+    if r < 0.92 or cls != "plain":
+        return {"s": name, "q": True}
+    return {"s": name, "q": False}
 
 
 def gen_schema(rng, kind, close_q, open_q, reserved_words, classes):
@@ -80,7 +97,14 @@ def gen_schema(rng, kind, close_q, open_q, reserved_words, classes):
     if kind == "plain":
         return plain(rng, reserved_words)
     if kind == "quoting":
-        cls = rng.choice([c for c in classes if c not in ("plain", "edge")])
+        # needs-quoting str, dotted str (multi-part by design), or a quoted_name (ONE identifier, dots included) as a
+        # Table.schema would be
+        r = rng.random()
+        if r < 0.2:
+            return gen_schema(rng, "dotted", close_q, open_q, reserved_words, classes)
+        if r < 0.4:
+            return gen_schema(rng, "qn", close_q, open_q, reserved_words, classes)
+        cls = rng.choice([c for c in classes if c not in ("plain", "edge", "dotname")] or ["mixed"])
         return gen_name(rng, cls, close_q, open_q, reserved_words, for_schema=True)
     if kind == "dotted":
         a = gen_name(rng, rng.choice(["plain", "mixed", "space", "reserved"]), close_q, open_q, reserved_words, True)
@@ -88,11 +112,12 @@ def gen_schema(rng, kind, close_q, open_q, reserved_words, classes):
         return a + "." + b
     if kind == "qn":
         r = rng.random()
-        if r < 0.4:
-            return {"s": plain(rng, reserved_words), "q": True}
-        if r < 0.7:
-            return {"s": plain(rng, reserved_words) + "." + word(rng), "q": None}
-        return {"s": gen_name(rng, rng.choice(["mixed", "space", "qchar"]), close_q, open_q, reserved_words, True), "q": None}
+        if r < 0.25:
+            return {"s": plain(rng, reserved_words), "q": rng.choice([True, None, False])}
+        if r < 0.7:   # a schema literally named `corp.sales`, as SQLAlchemy stores Table.schema (quote=None) or forced
+            return {"s": gen_name(rng, "dotname", close_q, open_q, reserved_words, True), "q": rng.choice([None, None, True])}
+        return {"s": gen_name(rng, rng.choice(["mixed", "space", "qchar", "reserved"]), close_q, open_q, reserved_words, True),
+                "q": rng.choice([None, True])}
     raise ValueError(kind)
 
 
